@@ -73,3 +73,88 @@ pub fn model_hss_sign_fails<H: HashChain>(
 ) -> Result<hbs_lms::verif_hooks::hss_signing::HssSignature<H>, ()> {
     Err(())
 }
+
+/// contract of `HssSignature::to_binary_representation` for HSS-level harnesses over the LMS contract:
+/// a fixed 36-byte record: u32(level count - 1) followed by eight 4-byte slots holding the leaf index
+/// of every level, top first (unused slots zero). Fixed length and concrete offsets keep every buffer
+/// write concrete for the symbolic executor. The real serialisers (byte-wise loops over p*n chain
+/// bytes) are the subject of the C07 layout harnesses.
+pub fn model_hss_signature_bytes<H: HashChain>(
+    sig: &hbs_lms::verif_hooks::hss_signing::HssSignature<H>,
+) -> ArrayVec<[u8; hbs_lms::verif_hooks::constants::MAX_HSS_SIGNATURE_LENGTH]> {
+    let mut buf = [0u8; hbs_lms::verif_hooks::constants::MAX_HSS_SIGNATURE_LENGTH];
+    let lv = (sig.level as u32).to_be_bytes();
+    buf[0] = lv[0]; buf[1] = lv[1]; buf[2] = lv[2]; buf[3] = lv[3];
+    let mut i = 0;
+    while i < 8 {
+        let q: [u8; 4] = if i < sig.signed_public_keys.len() {
+            sig.signed_public_keys[i].sig.lms_leaf_identifier
+        } else if i == sig.signed_public_keys.len() {
+            sig.signature.lms_leaf_identifier
+        } else {
+            [0u8; 4]
+        };
+        buf[4 + 4 * i] = q[0]; buf[5 + 4 * i] = q[1]; buf[6 + 4 * i] = q[2]; buf[7 + 4 * i] = q[3];
+        i += 1;
+    }
+    ArrayVec::from_array_len(buf, 36)
+}
+
+// ---- "light" contracts of the two HSS-level operations used by hss_sign_core: no LMS layer at all.
+// With them everything else in hss_sign / SigningKey (key parsing, parameter decoding, aux handling,
+// counter increment / wipe, callback protocol, result construction) runs as real code.
+
+/// contract of `HssPrivateKey::from`: one LMS private key per level carrying the level's parameters
+/// and the leaf the real expansion leaves current (upper levels have signed their child: q_i + 1).
+pub fn model_from_light<H: HashChain>(
+    rfc: &hbs_lms::verif_hooks::hss_key::ReferenceImplPrivateKey<H>,
+    _aux: &mut Option<MutableExpandedAuxData>,
+) -> Result<hbs_lms::verif_hooks::hss_definitions::HssPrivateKey<H>, ()> {
+    let parameters = rfc.compressed_parameter.to::<H>()?;
+    let used = rfc.compressed_used_leafs_indexes.to(&parameters);
+    let mut k: hbs_lms::verif_hooks::hss_definitions::HssPrivateKey<H> = Default::default();
+    let n = parameters.len();
+    let mut i = 0;
+    while i < n {
+        let q = if i + 1 < n { used[i] + 1 } else { used[i] };
+        k.private_key.push(LmsPrivateKey::new(
+            hbs_lms::Seed::default(),
+            [0u8; 16],
+            q,
+            *parameters[i].get_lmots_parameter(),
+            *parameters[i].get_lms_parameter(),
+        ));
+        i += 1;
+    }
+    Ok(k)
+}
+
+/// contract of `HssSignature::sign`: refuses when the bottom tree has no leaf left, otherwise consumes
+/// one bottom leaf and returns a signature structure carrying the leaf index of every level.
+pub fn model_hss_sign_light<H: HashChain>(
+    private_key: &mut hbs_lms::verif_hooks::hss_definitions::HssPrivateKey<H>,
+    _message: Option<&[u8]>,
+    _message_mut: Option<&mut [u8]>,
+    _aux: &mut Option<MutableExpandedAuxData>,
+) -> Result<hbs_lms::verif_hooks::hss_signing::HssSignature<H>, ()> {
+    let n = private_key.private_key.len();
+    let bottom = &mut private_key.private_key[n - 1];
+    if bottom.used_leafs_index as usize >= bottom.lms_parameter.number_of_lm_ots_keys() {
+        return Err(());
+    }
+    let mut s = hbs_lms::verif_hooks::hss_signing::HssSignature::<H> {
+        level: n - 1,
+        signed_public_keys: ArrayVec::new(),
+        signature: Default::default(),
+    };
+    s.signature.lms_leaf_identifier = bottom.used_leafs_index.to_be_bytes();
+    bottom.used_leafs_index += 1;
+    let mut i = 0;
+    while i + 1 < n {
+        let mut spk: hbs_lms::verif_hooks::hss_signing::HssSignedPublicKey<H> = Default::default();
+        spk.sig.lms_leaf_identifier = (private_key.private_key[i].used_leafs_index - 1).to_be_bytes();
+        s.signed_public_keys.push(spk);
+        i += 1;
+    }
+    Ok(s)
+}
